@@ -41,4 +41,4 @@ package utils
 
 //@ func NextLine(b) line, rest, err
 //@   props C03
-//@   ensures err == nil ==> within(line, b) && within(rest, b) && len(rest) < len(b)
+//@   ensures err == nil ==> sameArray(rest, b) && off(rest) > off(b) && off(rest) + len(rest) == off(b) + len(b) && sameArray(line, b) && off(line) == off(b) && len(line) < off(rest) - off(b)
